@@ -169,7 +169,13 @@ pub fn expected_replay(dir: &Path, ncols: usize, index_bits: &dyn Fn(u8) -> Vec<
 		let mut pos = 0usize;
 		loop {
 			match parse_record(&data[pos..], ncols, index_bits) {
-				Rec::Eof => break,                 // end of this file, or a record cut short: next file
+				Rec::Eof => break,                 // end of this file: next file
+				Rec::Cut { id } =>
+					if id != last_enacted.wrapping_add(1) {
+						break 'logs
+					} else {
+						break
+					},
 				Rec::Invalid => break 'logs,       // everything else is discarded
 				Rec::Ok { id, len } => {
 					if id != last_enacted.wrapping_add(1) {
@@ -185,10 +191,106 @@ pub fn expected_replay(dir: &Path, ncols: usize, index_bits: &dyn Fn(u8) -> Vec<
 	applied
 }
 
+/// every replay the log bytes justify: files whose first record announces the same id are ordered by the
+/// directory listing, which is not determined; one result per ordering of such ties (at most 24 orderings)
+pub fn expected_replay_set(dir: &Path, ncols: usize, index_bits: &dyn Fn(u8) -> Vec<u8>) -> (Vec<Vec<u64>>, bool) {
+	let mut logs: Vec<(u64, String, Vec<u8>)> = Vec::new();
+	if let Ok(rd) = std::fs::read_dir(dir) {
+		for e in rd.flatten() {
+			let n = e.file_name().to_string_lossy().to_string();
+			if let Some(rest) = n.strip_prefix("log") {
+				if rest.parse::<u32>().is_ok() && e.path().is_file() {
+					let data = std::fs::read(e.path()).unwrap_or_default();
+					if data.len() >= 9 {
+						let first = u64::from_le_bytes(data[1..9].try_into().unwrap());
+						logs.push((first, n, data));
+					}
+				}
+			}
+		}
+	}
+	logs.sort_by(|a, b| a.0.cmp(&b.0).then(a.1.cmp(&b.1)));
+	let ties = logs.windows(2).any(|w| w[0].0 == w[1].0);
+	// all orderings that keep the first ids sorted
+	let mut orders: Vec<Vec<usize>> = vec![vec![]];
+	let mut i = 0;
+	while i < logs.len() {
+		let mut j = i;
+		while j < logs.len() && logs[j].0 == logs[i].0 {
+			j += 1;
+		}
+		let group: Vec<usize> = (i..j).collect();
+		let mut perms: Vec<Vec<usize>> = vec![vec![]];
+		for _ in 0..group.len() {
+			let mut next = Vec::new();
+			for p in &perms {
+				for g in &group {
+					if !p.contains(g) {
+						let mut q = p.clone();
+						q.push(*g);
+						next.push(q);
+					}
+				}
+			}
+			perms = next;
+		}
+		let mut next_orders = Vec::new();
+		for o in &orders {
+			for p in perms.iter().take(24) {
+				let mut q = o.clone();
+				q.extend(p.iter());
+				next_orders.push(q);
+			}
+		}
+		orders = next_orders;
+		orders.truncate(64);
+		i = j;
+	}
+	let mut results = Vec::new();
+	for order in orders {
+		let mut applied = Vec::new();
+		if order.is_empty() {
+			results.push(applied);
+			continue
+		}
+		let mut last_enacted = logs[order[0]].0.wrapping_sub(1);
+		'logs: for li in order {
+			let data = &logs[li].2;
+			let mut pos = 0usize;
+			loop {
+				match parse_record(&data[pos..], ncols, index_bits) {
+					Rec::Eof => break,
+					Rec::Cut { id } =>
+						if id != last_enacted.wrapping_add(1) {
+							break 'logs
+						} else {
+							break
+						},
+					Rec::Invalid => break 'logs,
+					Rec::Ok { id, len } => {
+						if id != last_enacted.wrapping_add(1) {
+							break 'logs
+						}
+						applied.push(id);
+						last_enacted = id;
+						pos += len;
+					},
+				}
+			}
+		}
+		if !results.contains(&applied) {
+			results.push(applied);
+		}
+	}
+	(results, ties)
+}
+
 pub enum Rec {
 	Ok { id: u64, len: usize },
 	Invalid,
 	Eof,
+	/// the header of record `id` was read, then a reader error: the sequence check on `id` still happens
+	Cut { id: u64 },
 }
 
 pub fn parse_record(b: &[u8], ncols: usize, index_bits: &dyn Fn(u8) -> Vec<u8>) -> Rec {
@@ -202,30 +304,59 @@ pub fn parse_record(b: &[u8], ncols: usize, index_bits: &dyn Fn(u8) -> Vec<u8>) 
 	}
 	need!(1);
 	if b[0] != 1 {
-		// read_next: anything but BEGIN_RECORD at a record boundary is a bad structure
+		// read_next: at a record boundary the reader first reads the action the byte announces (an action
+		// header of 10 bytes, a checksum of 4, a table id of 2); running out of bytes there is the end of the
+		// file, anything that can be read is a bad structure, an unknown code is one at once
+		let needed = match b[0] {
+			2 | 3 | 6 => 10,
+			4 => 4,
+			5 | 7 => 2,
+			_ => 0,
+		};
+		if b.len() < 1 + needed {
+			return Rec::Eof
+		}
 		return Rec::Invalid
 	}
 	need!(9);
 	let id = u64::from_le_bytes(b[1..9].try_into().unwrap());
 	p = 9;
+	// inside a record: running out of bytes in an action HEADER (or in the checksum), a checksum mismatch and
+	// an unknown code are reader errors: the record is not applied and this file ends here (Eof); running out
+	// of bytes in a PAYLOAD (read by validate_plan), a failed validation and a record inside a record discard
+	// every remaining log (Invalid)
+	macro_rules! needh {
+		($n:expr) => {
+			if p + $n > b.len() {
+				return Rec::Cut { id }
+			}
+		};
+	}
+	macro_rules! needp {
+		($n:expr) => {
+			if p + $n > b.len() {
+				return Rec::Invalid
+			}
+		};
+	}
 	loop {
-		need!(1);
+		needh!(1);
 		let op = b[p];
 		p += 1;
 		match op {
 			1 => return Rec::Invalid,
 			4 => {
-				need!(4);
+				needh!(4);
 				let want = u32::from_le_bytes(b[p..p + 4].try_into().unwrap());
 				let mut h = crc32fast::Hasher::new();
 				h.update(&b[..p]);
 				if h.finalize() != want {
-					return Rec::Invalid
+					return Rec::Cut { id }
 				}
 				return Rec::Ok { id, len: p + 4 }
 			},
 			2 | 6 => {
-				need!(10);
+				needh!(10);
 				let table = u16::from_le_bytes(b[p..p + 2].try_into().unwrap());
 				let index = u64::from_le_bytes(b[p + 2..p + 10].try_into().unwrap());
 				p += 10;
@@ -234,25 +365,33 @@ pub fn parse_record(b: &[u8], ncols: usize, index_bits: &dyn Fn(u8) -> Vec<u8>) 
 				if col >= ncols {
 					return Rec::Invalid
 				}
-				// table generations the column knows (current and queued) or a newer one are acceptable
-				let known = index_bits(col as u8);
-				if op == 2 {
-					if !known.contains(&(bits as u8)) && known.iter().all(|k| (bits as u8) < *k) {
-						return Rec::Invalid
-					}
-					if bits >= 58 || index >= (1u64 << bits) * 64 {
-						return Rec::Invalid
-					}
+				if op == 6 {
+					// no column of these histories has a reference count table
+					return Rec::Invalid
 				}
-				need!(8);
+				let known = index_bits(col as u8);
+				let current = *known.iter().max().unwrap() as u32;
+				let check_range = if known.contains(&(bits as u8)) {
+					true
+				} else if bits < current {
+					false // a dropped generation: skipped
+				} else if bits == current + 1 {
+					true // the next generation: reindexing is re-launched
+				} else {
+					return Rec::Invalid
+				};
+				if check_range && (bits >= 58 || index >= (1u64 << bits) * 64) {
+					return Rec::Invalid
+				}
+				needp!(8);
 				let mask = u64::from_le_bytes(b[p..p + 8].try_into().unwrap());
 				p += 8;
-				let n = mask.count_ones() as usize * if op == 2 { 8 } else { 16 };
-				need!(n);
+				let n = mask.count_ones() as usize * 8;
+				needp!(n);
 				p += n;
 			},
 			3 => {
-				need!(10);
+				needh!(10);
 				let table = u16::from_le_bytes(b[p..p + 2].try_into().unwrap());
 				let index = u64::from_le_bytes(b[p + 2..p + 10].try_into().unwrap());
 				p += 10;
@@ -262,30 +401,33 @@ pub fn parse_record(b: &[u8], ncols: usize, index_bits: &dyn Fn(u8) -> Vec<u8>) 
 					return Rec::Invalid
 				}
 				if index == 0 {
-					need!(16);
+					needp!(16);
 					p += 16;
 				} else {
-					need!(2);
+					needp!(2);
 					let hd = [b[p], b[p + 1]];
 					p += 2;
 					if hd == [0xff, 0xff] {
-						need!(8);
+						needp!(8);
 						p += 8;
 					} else if tier == 255 && (hd == [0xfe, 0xff] || hd == [0xfd, 0xff] || hd == [0xfd, 0x7f]) {
-						need!(4094);
+						needp!(4094);
 						p += 4094;
 					} else {
 						let sz = (u16::from_le_bytes(hd) & 0x7fff) as usize;
-						need!(sz);
+						if sz == 0x7fff {
+							return Rec::Invalid
+						}
+						needp!(sz);
 						p += sz;
 					}
 				}
 			},
 			5 | 7 => {
-				need!(2);
+				needh!(2);
 				p += 2;
 			},
-			_ => return Rec::Invalid,
+			_ => return Rec::Cut { id },
 		}
 	}
 }
